@@ -307,6 +307,10 @@ for _k, _v in NOTE_REPLACE.items():
 for _k, _v in APPEND.items():
     CHECKS[_k]["text"] += _v
 
+CHECKS["C05"]["technique"] += "; Apalache inductive invariant and TLAPS proof (all parameter values) for the notification-admission sub-model ConnNotify.tla; transport satellites (HTTP+SSE, streamable-HTTP shutdown) with their own TLA+ models, TLC runs and monitors"
+for _k in ("C01", "C02", "C03"):
+    CHECKS[_k]["technique"] += "; transport satellites (HTTP+SSE" + (", fan-out" if _k == "C03" else "") + (", streamable HTTP" if _k != "C01" else "") + ") with their own TLA+ models, TLC runs and monitors"
+CHECKS["C04"]["technique"] += "; streamable-HTTP satellite judged by StreamSrvMon"
 NOT_YET = "check not built yet in this round (planned with the same technique; see DESIGN.md section 6)"
 
 def main():
